@@ -738,6 +738,77 @@ def append_loops_to_comprehensions(tree):
     return count
 
 
+def _attr_chain_expr(node):
+    """pure attribute chain rooted at a plain name: node.x1, self._path"""
+    n = node
+    depth = 0
+    while isinstance(n, ast.Attribute):
+        n = n.value
+        depth += 1
+    return depth >= 1 and isinstance(n, ast.Name)
+
+
+def propagate_new_aliases(tree, table):
+    """`t = obj.attr` where t is a local that did not exist on the pinned tree: later reads of t in the same statement list (until t
+    is re-bound or obj / obj.attr is stored) are replaced by obj.attr.  Undoes `value = getattr(node, name)` after loop unrolling."""
+    funcs, _ = function_table(tree)
+    count = 0
+    for q, fn in funcs.items():
+        known = table.get(q)
+        if known is None:
+            continue
+        for node in ast.walk(fn):
+            for field in ("body", "orelse", "finalbody"):
+                block = getattr(node, field, None)
+                if not isinstance(block, list):
+                    continue
+                i = 0
+                tally = {}
+                for o in block:
+                    if isinstance(o, ast.Assign) and len(o.targets) == 1 and isinstance(o.targets[0], ast.Name) and _attr_chain_expr(o.value):
+                        tally[o.targets[0].id] = tally.get(o.targets[0].id, 0) + 1
+                while i < len(block):
+                    st = block[i]
+                    repeated = isinstance(st, ast.Assign) and len(st.targets) == 1 and isinstance(st.targets[0], ast.Name) and tally.get(st.targets[0].id, 0) >= 2
+                    if isinstance(st, ast.Assign) and len(st.targets) == 1 and isinstance(st.targets[0], ast.Name) and (st.targets[0].id not in known or repeated) and _attr_chain_expr(st.value):
+                        name = st.targets[0].id
+                        chain = st.value
+                        root = chain
+                        while isinstance(root, ast.Attribute):
+                            root = root.value
+                        chain_src = ast.unparse(chain)
+                        j = i + 1
+                        replaced_all = True
+                        while j < len(block):
+                            later = block[j]
+                            rebinds = any(isinstance(n, ast.Name) and n.id in (name, root.id) and isinstance(n.ctx, (ast.Store, ast.Del)) for n in ast.walk(later))
+                            stores_chain = any(isinstance(n, ast.Attribute) and isinstance(n.ctx, (ast.Store, ast.Del)) and ast.unparse(n) == chain_src for n in ast.walk(later))
+                            if rebinds or stores_chain:
+                                # uses inside this statement are ambiguous: stop before it
+                                if any(isinstance(n, ast.Name) and n.id == name and isinstance(n.ctx, ast.Load) for n in ast.walk(later)) and not (
+                                        isinstance(later, ast.Assign) and len(later.targets) == 1 and isinstance(later.targets[0], ast.Name) and later.targets[0].id == name
+                                        and not any(isinstance(n, ast.Name) and n.id == name for n in ast.walk(later.value))):
+                                    replaced_all = False
+                                break
+
+                            class R(ast.NodeTransformer):
+                                def visit_Name(self, n):
+                                    if n.id == name and isinstance(n.ctx, ast.Load):
+                                        return ast.copy_location(copy.deepcopy(chain), n)
+                                    return n
+
+                            block[j] = R().visit(later)
+                            j += 1
+                        if replaced_all:
+                            del block[i]
+                            count += 1
+                            continue
+                    i += 1
+    if count:
+        ast.fix_missing_locations(tree)
+    return count
+
+
 def normalise(tree):
     pinned = pinned_functions()
     if pinned is None:
@@ -749,9 +820,10 @@ def normalise(tree):
     af = _AttrFold()
     af.visit(tree)
     ast.fix_missing_locations(tree)
+    aliases = propagate_new_aliases(tree, pinned_table())
     comps = append_loops_to_comprehensions(tree)
     temps = inline_new_temporaries(tree, pinned_table())
-    return tree, {"inlined": inl.inlined, "kept": inl.kept, "removed": getattr(inl, "removed", []), "unrolled": n1 + n2, "getattr_folded": af.count, "append_loops": comps, "temporaries_inlined": temps}
+    return tree, {"inlined": inl.inlined, "kept": inl.kept, "removed": getattr(inl, "removed", []), "unrolled": n1 + n2, "getattr_folded": af.count, "append_loops": comps, "aliases_propagated": aliases, "temporaries_inlined": temps}
 
 
 def unroll(tree, model_tables):
